@@ -739,6 +739,8 @@ func runC11(c *Ctx) {
 	checkWorkersAccountedFor(c, "R16")
 	checkCloseErrorsKept(c, "R17")
 	checkHandlerObjectInOneSlot(c, "R18")
+	// R19 (shared with C09.R1): handles die on close also on a read-only server — CLOSE is not classified as modifying
+	c.withOnlyKeys("R5", "R19", []string{"request sshFxpClosePacket"}, func() { runC09(c) })
 	// R14 (shared with C07.R2): what ends the session is what the sweep reports to the objects still open — a receive
 	// loop that returns something else than the decoding error (nil) leaves them without their transfer-error notice
 	c.withRule("R14", func() { checkBadPacketEndsSession(c) })
